@@ -566,3 +566,10 @@ func H_C12_datetime_separator_pairs() {
 }
 
 func vQ(s string) string { return "'" + s + "'" }
+
+// one type whose rule lists contain empty items, repeated rules and an unknown rule, three calls in a row (nothing
+// / a rule set / per-call functions): what an earlier call did to anything kept per type must not show in a later one
+func H_C12_same_type_three_calls() {
+	vPoolMode([]string{"lifo", "adversarial"}[vndChoice("pool", 2)])
+	vSameTypeThreeCalls("C12")
+}
